@@ -147,6 +147,10 @@ def execute(scenario):
                     if abs(tr["comm"] - want_c) > 1e-9 * max(1.0, want_c):
                         violate("commissions", "step {}: recorded commission {} expected fixed + proportional*|notional| = {}".format(k, tr["comm"], want_c), op=k, kind="commission")
                         break
+                    want_s = float(abs(F(tr["q"])) * ledger.params[tr["sym"]][0] * (F(tr["ask"]) - F(tr["bid"])))
+                    if abs(tr["spread"] - want_s) > 1e-9 * max(1.0, abs(want_s)):
+                        violate("commissions", "step {}: recorded cost of spread {} expected |q| x mult x (ask - bid) = {}".format(k, tr["spread"], want_s), op=k, kind="spread")
+                        break
                     if tr["time"] != reb["time"]:
                         violate("entry_stamp", "step {}: trade stamped {} inside an entry stamped {}".format(k, tr["time"], reb["time"]), op=k, kind="trade_stamp")
                         break
